@@ -45,17 +45,36 @@ class SockTraces:
     def add(self, data, script, calls, encoding=0, bufsize=4096, **meta):
         tid = len(self.traces) + 1
         ev, res = sock_rec.run_wrapper(data, script, calls, encoding, bufsize)
-        self.traces.append({"tid": tid, "enc": encoding, "ev": ev})
+        self.traces.append({"tid": tid, "enc": encoding, "env": False, "ev": ev})
         meta.update(data=data, script=script, calls=calls, encoding=encoding, bufsize=bufsize)
         self.meta[tid] = meta
         self.results[tid] = res
         return tid, ev, res
 
-    def judge(self, shards=16):
+    def judge(self, shards=16, always_env=False):
         verdicts, results = sock_rec.judge(self.traces, self.chunked, self.inflate, shards=shards)
         for r in results:
             self.rep.add_tlc(r)
         self.rep.count("traces_validated_against_impl", len(self.traces))
+        # plain mode: a trace rejected because an event does not fit the specification's RECEIVE
+        # PATTERN is judged again by the envelope binding (what is returned, not when recv is called)
+        pattern = [tid for tid, v in verdicts.items() if v[0] == "reject" and v[1] == "EventDoesNotFit"] if not self.chunked else []
+        env_sample = [] if self.chunked or not always_env else [t["tid"] for t in self.traces][:: max(1, len(self.traces) // 300)]
+        todo = sorted(set(pattern) | set(env_sample))
+        if todo:
+            again = [dict(self.traces[tid - 1], env=True) for tid in todo]
+            v2, r2 = sock_rec.judge(again, False, self.inflate, shards=shards, invariants=False)
+            for r in r2:
+                self.rep.add_tlc(r)
+            for tid in todo:
+                if tid in pattern:
+                    v = v2[tid]
+                    verdicts[tid] = (v[0], v[1] if v[0] == "accept" else "Env:" + v[1], v[2], v[3])
+                elif v2[tid][0] == "reject" and verdicts[tid][0] == "accept":
+                    verdicts[tid] = ("reject", "Env:" + v2[tid][1], v2[tid][2], v2[tid][3])
+            if pattern:
+                self.rep.notes["recv_pattern_deviation"] = {"traces": len(pattern), "judged_by_envelope": len(pattern)}
+            self.rep.notes["envelope_traces"] = len(todo)
         return verdicts
 
     def replay_of(self, tid, v):
